@@ -99,6 +99,13 @@ fn check_file_line(cx: &mut Ctx, me: &ModelEvent, idx: u64, line: &str) {
                     &format!("C13:file:map-key:{}:malformed", shape),
                     format!("file writer emitted a malformed line for a map with {} keys ({}): {}", shape, e, clip(line)),
                 );
+            } else if let Some(shape) = me.tagged_key_shape() {
+                cx.violation(
+                    me,
+                    idx,
+                    &format!("C13:file:map-key:{}:malformed", shape),
+                    format!("file writer emitted an unbalanced line for a map keyed by a {} followed by a labelled value ({}): {}", shape, e, clip(line)),
+                );
             } else {
                 cx.violation(me, idx, "C13:file:line-malformed", format!("line is not valid JSON ({}): {}", e, clip(line)));
             }
@@ -411,6 +418,10 @@ fn check_exception(cx: &mut Ctx, me: &ModelEvent, idx: u64, enc: Enc, signal: &s
             None => cx.violation(me, idx, &format!("C13:otlp:{}:exception-message-missing", signal), format!("{} {}: err present but no exception.message", enc.name(), signal)),
             Some(g) => {
                 if let Err(why) = any_matches(&img, g, "$") {
+                    if enc == Enc::Proto && any_matches(&strip_img(&img), g, "$").is_ok() {
+                        cx.violation(me, idx, "C13:otlp:proto:array-null-element-dropped", format!("protobuf {}: err ({}) exported as exception.message {} — null elements of a sequence are dropped ({})", signal, p.describe(), clip(&format!("{:?}", g)), why));
+                        return;
+                    }
                     cx.violation(me, idx, &format!("C13:otlp:{}:exception-message:{}", signal, class_of(p)), format!("{} {}: exception.message is {:?} — {}", enc.name(), signal, g, why));
                 }
             }
@@ -639,7 +650,8 @@ fn check_metric(cx: &mut Ctx, me: &ModelEvent, idx: u64, enc: Enc, r: &MetricRec
     let is_sum = matches!(r.data, MetricData::Sum(..));
     match (metric_value(me), want_data.is_some()) {
         (MetricValue::Scalar(w), _) => {
-            if r.points.len() != 1 || !point_matches(w, &r.points[0].value) {
+            let zero_sum = is_sum && matches!((w, r.points.first().map(|p| &p.value)), (PointWant::Double(a), Some(PointValue::Double(Some(b)))) if a == 0.0 && *b == 0.0);
+            if r.points.len() != 1 || !(point_matches(w, &r.points[0].value) || zero_sum) {
                 cx.violation(me, idx, "C13:otlp:metrics:point-value:scalar", format!("{} metrics: points {:?}, expected one point {:?}", enc.name(), r.points.iter().map(|p| &p.value).collect::<Vec<_>>(), w));
             } else if r.points[0].start != start || r.points[0].time != end {
                 cx.violation(me, idx, "C13:otlp:metrics:point-time", format!("{} metrics: point {}..{}, expected {}..{}", enc.name(), r.points[0].start, r.points[0].time, start, end));
@@ -661,21 +673,32 @@ fn check_metric(cx: &mut Ctx, me: &ModelEvent, idx: u64, enc: Enc, r: &MetricRec
         }
         (MetricValue::Seq(ws), true) => {
             // a sum over the buckets
-            let all_int: Option<Vec<i64>> = ws.iter().map(|w| if let PointWant::Int(i) = w { Some(*i) } else { None }).collect();
+            // integers add exactly until a float joins; an i64 overflow is not settled by the statement
+            enum Acc {
+                Int(i64),
+                Float(f64),
+                Unsettled,
+            }
+            let mut acc = Acc::Int(0);
+            for w in &ws {
+                acc = match (acc, w) {
+                    (Acc::Int(a), PointWant::Int(b)) => a.checked_add(*b).map(Acc::Int).unwrap_or(Acc::Unsettled),
+                    (Acc::Int(a), PointWant::Double(b)) => Acc::Float(a as f64 + *b),
+                    (Acc::Float(a), PointWant::Int(b)) => Acc::Float(a + *b as f64),
+                    (Acc::Float(a), PointWant::Double(b)) => Acc::Float(a + *b),
+                    (Acc::Unsettled, _) => Acc::Unsettled,
+                };
+            }
             let ok = r.points.len() == 1
-                && match all_int {
-                    Some(is) => match is.iter().try_fold(0i64, |a, b| a.checked_add(*b)) {
-                        Some(sum) => r.points[0].value == PointValue::Int(sum),
-                        None => true,
+                && match acc {
+                    Acc::Unsettled => true,
+                    Acc::Int(sum) => r.points[0].value == PointValue::Int(sum),
+                    Acc::Float(sum) => match &r.points[0].value {
+                        PointValue::Double(Some(g)) if sum.is_finite() => (g - sum).abs() <= 1e-9 * sum.abs().max(1.0),
+                        PointValue::Double(Some(g)) => !g.is_finite(),
+                        PointValue::Double(None) => !sum.is_finite(),
+                        _ => false,
                     },
-                    None => {
-                        let sum: f64 = ws.iter().map(|w| match w { PointWant::Int(i) => *i as f64, PointWant::Double(d) => *d }).sum();
-                        match &r.points[0].value {
-                            PointValue::Double(Some(g)) => !sum.is_finite() || (g - sum).abs() <= 1e-9 * sum.abs().max(1.0),
-                            PointValue::Double(None) => !sum.is_finite() || ws.iter().any(|w| matches!(w, PointWant::Double(d) if !d.is_finite())),
-                            _ => false,
-                        }
-                    }
                 };
             if !ok {
                 cx.violation(me, idx, "C13:otlp:metrics:point-value:sum", format!("{} metrics: sum points {:?} for buckets {:?}", enc.name(), r.points.iter().map(|p| &p.value).collect::<Vec<_>>(), ws));
@@ -752,13 +775,16 @@ fn run_otlp(cx: &mut Ctx, collector: &Collector, batch: &str, events: &[(u64, Mo
     let mut panicked: BTreeMap<(&'static str, usize), String> = BTreeMap::new();
     for enc in [Enc::Proto, Enc::Json] {
         let base = format!("/{}/{}", batch, enc.name());
+        let resource = [("service.name", emit::Value::from("c13")), ("run", emit::Value::from(13))];
         let otlp = match enc {
             Enc::Proto => emit_otlp::new()
+                .resource(&resource[..])
                 .logs(emit_otlp::logs_proto(emit_otlp::http(collector.url(&format!("{}/v1/logs", base))).allow_compression(false)))
                 .traces(emit_otlp::traces_proto(emit_otlp::http(collector.url(&format!("{}/v1/traces", base))).allow_compression(false)))
                 .metrics(emit_otlp::metrics_proto(emit_otlp::http(collector.url(&format!("{}/v1/metrics", base))).allow_compression(false)))
                 .spawn(),
             Enc::Json => emit_otlp::new()
+                .resource(&resource[..])
                 .logs(emit_otlp::logs_json(emit_otlp::http(collector.url(&format!("{}/v1/logs", base))).allow_compression(false)))
                 .traces(emit_otlp::traces_json(emit_otlp::http(collector.url(&format!("{}/v1/traces", base))).allow_compression(false)))
                 .metrics(emit_otlp::metrics_json(emit_otlp::http(collector.url(&format!("{}/v1/metrics", base))).allow_compression(false)))
@@ -802,6 +828,14 @@ fn run_otlp(cx: &mut Ctx, collector: &Collector, batch: &str, events: &[(u64, Mo
             if let Err(e) = res {
                 let sig = format!("C13:otlp:{}:request-undecodable:{}", enc.name(), req.path.rsplit('/').next().unwrap_or(""));
                 cx.r.violation(&sig, &format!("{} request to {} does not decode: {}", enc.name(), req.path, clip(&e)), json!({"seed": cx.seed, "section": cx.section, "batch": batch, "first_idx": events.first().map(|e| e.0)}));
+            }
+        }
+        for res in &d.resources {
+            cx.r.observe("otlp:resource-comparisons", 1);
+            let mut sorted = res.clone();
+            sorted.sort_by(|a, b| a.0.cmp(&b.0));
+            if sorted != vec![("run".to_string(), AnyObs::Int(13)), ("service.name".to_string(), AnyObs::Str("c13".into()))] {
+                cx.r.violation(&format!("C13:otlp:{}:resource", enc.name()), &format!("{}: resource attributes exported as {:?}", enc.name(), res), json!({"seed": cx.seed, "section": cx.section, "batch": batch}));
             }
         }
         decoded.insert(enc.name(), d);
@@ -947,6 +981,7 @@ fn section_events(seed: u64, section: &str, from: u64, to: u64, compound: bool) 
     match section {
         "directed" => {
             let mut all = directed_compound_events(seed);
+            all.extend(directed_other_known(seed));
             all.extend(directed_scalar_key_events(seed));
             all.push(directed_metric_dedup(seed));
             all.into_iter().enumerate().map(|(i, e)| (i as u64, e)).filter(|(i, _)| *i >= from && *i < to).collect()
@@ -1064,14 +1099,14 @@ fn main() {
 
     // 2. random events, maps restricted to keys with a textual form
     let batch = args.get_u64("batch", 100);
-    let n = args.get_u64("events", args.n(3_000, 300_000));
+    let n = args.get_u64("events", args.n(30_000, 2_000_000));
     let batches = (n + batch - 1) / batch;
     par_cases(&mut r, &args, batches, |b, r| {
         run_batch(r, &collector, &root, seed, "random", b * batch, ((b + 1) * batch).min(n), false, &sinks, dump);
     });
 
     // 3. random events whose maps may also have compound keys: only the known signatures may fire
-    let n2 = args.get_u64("compound-events", args.n(600, 30_000));
+    let n2 = args.get_u64("compound-events", args.n(3_000, 200_000));
     let batches2 = (n2 + batch - 1) / batch;
     par_cases(&mut r, &args, batches2, |b, r| {
         run_batch(r, &collector, &root, seed, "compound", b * batch, ((b + 1) * batch).min(n2), true, &sinks, dump);
